@@ -537,20 +537,23 @@ fn fold_constraint_set(
                 extensible: _,
             }),
         ) => return Ok(None),
+        // The constraints of a contained subtype are not folded in. The other operand
+        // alone is a superset of the result only where the contained subtype can but
+        // narrow it; anywhere else the set is treated as unconstrained.
         (
             SubtypeElements::ContainedSubtype {
                 subtype: _,
                 extensible: _,
             },
             Some(c),
-        )
-        | (
+        ) => return Ok((set.operator == SetOperator::Intersection).then(|| c.clone())),
+        (
             c,
             Some(SubtypeElements::ContainedSubtype {
                 subtype: _,
                 extensible: _,
             }),
-        ) => return Ok(Some(c.clone())),
+        ) => return Ok((set.operator != SetOperator::Union).then(|| c.clone())),
         (SubtypeElements::PermittedAlphabet(elem_or_set), None)
         | (SubtypeElements::SizeConstraint(elem_or_set), None) => {
             return match &**elem_or_set {
